@@ -1354,6 +1354,8 @@ pub enum Op {
     DupMin,
     DupMax,
     Merge(u8),
+    /// merge a donor built from scratch with its own k by the given ops
+    MergeOps { k: u16, ops: Vec<Op> },
     Freeze,
     Serde,
     Query,
@@ -1368,6 +1370,7 @@ impl Op {
             Op::DupMin => json!("dup_min"),
             Op::DupMax => json!("dup_max"),
             Op::Merge(j) => json!({"merge":j}),
+            Op::MergeOps { k, ops } => json!({"merge_ops":{"k":k,"ops":ops.iter().map(|o| o.json()).collect::<Vec<_>>()}}),
             Op::Freeze => json!("freeze"),
             Op::Serde => json!("serde"),
             Op::Query => json!("query"),
@@ -1382,6 +1385,8 @@ impl Op {
             Op::Value(x.as_f64().unwrap())
         } else if let Some(j) = v.get("merge") {
             Op::Merge(j.as_u64().unwrap() as u8)
+        } else if let Some(m) = v.get("merge_ops") {
+            Op::MergeOps { k: m["k"].as_u64().unwrap() as u16, ops: m["ops"].as_array().unwrap().iter().map(Op::from_json).collect() }
         } else {
             match v.as_str().unwrap_or("") {
                 "dup_min" => Op::DupMin,
@@ -1400,6 +1405,7 @@ impl Op {
             Op::DupMin => "update(min)".into(),
             Op::DupMax => "update(max)".into(),
             Op::Merge(j) => format!("merge(pool[{j}])"),
+            Op::MergeOps { k, ops } => format!("merge(donor k={k}: {})", ops.iter().map(|o| o.describe()).collect::<Vec<_>>().join(", ")),
             Op::Freeze => "freeze->unfreeze".into(),
             Op::Serde => "serialize->deserialize".into(),
             Op::Query => "rank query on the live object".into(),
@@ -1536,6 +1542,13 @@ impl Pair {
             }
             Op::Merge(j) => {
                 let o = pool_member(*j, self.k);
+                self.merge_pair(&o, e).map_err(|p| pv(p, op))?;
+            }
+            Op::MergeOps { k, ops } => {
+                let mut o = Pair::new(*k);
+                for d in ops {
+                    o.apply(d, e)?;
+                }
                 self.merge_pair(&o, e).map_err(|p| pv(p, op))?;
             }
             Op::Freeze => {
